@@ -9,6 +9,8 @@ import (
 	"filippo.io/age/xverif/props/c07"
 	"filippo.io/age/xverif/props/c08"
 	"filippo.io/age/xverif/props/c09"
+	"filippo.io/age/xverif/props/c12"
+	"filippo.io/age/xverif/props/c13"
 	"filippo.io/age/xverif/props/c18"
 )
 
@@ -17,6 +19,8 @@ var checks = map[string]func(tier string){
 	"C07": c07.Run,
 	"C08": c08.Run,
 	"C09": c09.Run,
+	"C12": c12.Run,
+	"C13": c13.Run,
 	"C18": c18.Run,
 }
 
